@@ -6,6 +6,7 @@
 // Aligned allocations (posix_memalign & co.) are passed through unguarded.
 #ifndef VERIF_ALLOC_GUARD_H
 #define VERIF_ALLOC_GUARD_H
+#include <cstdlib>
 #include <cstddef>
 #include <cstdint>
 #include <cstring>
@@ -58,8 +59,8 @@ inline void* unwrap(void* p)
 }  // namespace vhguard
 
 extern "C" {
-void* malloc(size_t n) { return vhguard::wrap(__libc_malloc(n + vhguard::HDR + vhguard::TAIL), n); }
-void free(void* p)
+void* malloc(size_t n) noexcept { return vhguard::wrap(__libc_malloc(n + vhguard::HDR + vhguard::TAIL), n); }
+void free(void* p) noexcept
 {
     if (!p)
         return;
@@ -68,13 +69,13 @@ void free(void* p)
     else
         __libc_free(p);
 }
-void* calloc(size_t a, size_t b)
+void* calloc(size_t a, size_t b) noexcept
 {
     size_t n = a * b;
     void* raw = __libc_calloc(1, n + vhguard::HDR + vhguard::TAIL);
     return vhguard::wrap(raw, n);
 }
-void* realloc(void* p, size_t n)
+void* realloc(void* p, size_t n) noexcept
 {
     if (!p)
         return malloc(n);
